@@ -17,8 +17,11 @@ TRUSTED_BASE = [
     "lean/CifModel/Spec/Traversal.lean part 2 (Doc, tokensOf, docEvents, denote) as the meaning of the `_full` statements",
 ]
 ASSUMPTIONS = [
-    "documents are well-formed CIF 2.0 without duplicate block codes, frame codes or data names (so no error callback and "
-    "no DUP_* diagnostic is reachable); where the C would call the error callback the model stops with MALFORMED",
+    "documents are well-formed CIF 2.0 except that block codes, frame codes and data names (scalar items, loop headers) may "
+    "repeat (same or ASCII-case-variant spelling): the DUP_* diagnostics with an error callback that accepts are modelled "
+    "(Model/ParseCBDup.lean: parseCBD, run by the pcb driver and cross-checked there against parseCB on every case without a "
+    "diagnostic); for any other defect the model stops with MALFORMED (error recovery is property C12); a loop header that "
+    "loses ALL its names is outside",
     "handlers do not modify the CIF under construction",
     "default parse options (max_frame_depth clamps to 1: one level of save frames)",
 ]
@@ -31,7 +34,12 @@ PARTIAL = [
     "is that of the structural interpreter xDoc",
     "C15_syntax_only_same_log assumes a handler program that does not look at the (NULL in syntax-only mode) handles and that "
     "the storing parse does not stop on a frame-nesting diagnostic (input not well-formed under the options)",
-    "duplicate block/frame codes and data names (DUP_* diagnostics) are outside the model",
+    "duplicate block/frame codes and data names (DUP_* diagnostics, accepting error callback): modelled (parseCBD), covered "
+    "by the correspondence run with an oracle that restates the recovery (reopen the existing block/frame: its handle goes to "
+    "the handlers, its content is what later names are checked against and added to; a duplicate scalar gets its data-name "
+    "callback and the error callback but no item handler and is not stored; a duplicate loop-header name is dropped from "
+    "loop_start / the loop, its values are parsed without item handler; header names are checked against the container "
+    "even while skipping, against the header itself even without a container) and by the theorems named C15_dup_* ",
 ]
 LEVEL_TEXT = ("Proof about the executable token-level model ParseCB.parseCB. For all token sequences and all handler programs: "
               "skip_depth balance of every production, an END / error answer is the last callback and determines the result, "
